@@ -17,6 +17,20 @@ import scipy.sparse as sps
 
 from ..common import q, call_impl
 
+# derivative form of the adjoint theorems (Props/C07Deriv.lean: the implicit-function step, the coded sensitivities are the
+# derivative of the response along every differentiable curve of inputs); audited with every check of C07
+EXTRA_LEAN_MODULES = ("PymotoVerif.Props.C07Deriv",)
+EXTRA_THEOREMS = [
+    "PymotoVerif.C07Deriv.linsolve_solution_hasDerivAt", "PymotoVerif.C07Deriv.linsolve_response_hasDerivAt",
+    "PymotoVerif.C07Deriv.linsolve_sensitivity_is_derivative", "PymotoVerif.C07Deriv.linsolve_sensitivity_is_derivative_complex",
+    "PymotoVerif.C07Deriv.inverse_response_hasDerivAt", "PymotoVerif.C07Deriv.inverse_sensitivity_is_derivative",
+    "PymotoVerif.C07Deriv.inverse_sensitivity_is_derivative_complex",
+    "PymotoVerif.C07Deriv.soe_sensitivity_is_derivative", "PymotoVerif.C07Deriv.soe_sensitivity_is_derivative_complex_re",
+    "PymotoVerif.C07Deriv.staticcond_sensitivity_is_derivative",
+    "PymotoVerif.C07Deriv.staticcond_sensitivity_is_derivative_complex_re",
+    "PymotoVerif.LinSys.MatDerivAt.inv_mul", "PymotoVerif.LinSys.matDerivAt_iff_hasDerivAt",
+]
+
 RULE = ("streams: linsolve (matrix class x dense/sparse format x real/complex matrix x real/complex rhs x vector/block x "
         "solver override x hermitian/symmetric flags, incl. FE stiffness matrices with boundary conditions and random "
         "matrices with dofs decoupled in row only / column only / both, triangular and block-triangular matrices, FE stiffness with "
